@@ -18,18 +18,27 @@ Property clauses and the theorems that carry them
 * all or nothing ..................... `actions_all_or_nothing`, `block_effects_only_from_successful_triggers`,
                                        `balances_all_or_nothing`
 * gas prepaid, per-block caps ........ `gas_limit_capped_and_prepaid`, `per_block_caps`, `executed_gas_is_stored_limit`,
-                                       `actions_run_within_prepaid_gas`, `exceeding_prepaid_gas_fails_as_a_whole`
+                                       `actions_run_within_prepaid_gas`, `exceeding_prepaid_gas_fails_as_a_whole`,
+                                       `executed_within_creators_prepaid_gas` (end to end: the limit run with is the one
+                                       the creating transaction of the history stored and paid),
+                                       `gas_limit_never_changes_after_creation`, `runs_exactly_the_triggers_that_fit`,
+                                       `stops_only_at_a_cap`; the documented cap of 5 ACTIONS is not enforced (the code
+                                       counts triggers): `per_block_action_cap_is_not_enforced_observation`,
+                                       `per_block_action_cap_partial`
 * creators' authority ................ `created_actions_signed_by_authorities`, `executed_actions_were_authorised`
 * exactly one place .................. `never_waiting_and_queued`, `never_queued_twice`, `place_only_moves_forward`,
+                                       `place_moves_only_along_the_life_cycle`,
                                        `gone_is_forever`, `listeners_exactly_registered`,
                                        `gas_limit_exactly_waiting_or_queued`
-* only the owner, only while waiting . `destroy_iff_owner_and_waiting`, `destroy_rejected_once_queued_or_gone`,
+* only the owner, only while waiting . `destroy_iff_owner_and_waiting`, `destroy_post_state`,
+                                       `destroy_moves_waiting_to_gone`, `destroy_rejected_once_queued_or_gone`,
                                        `gone_never_fires`
 * no starvation ...................... `head_always_fits`, `queued_trigger_runs_within_its_position`
 * supporting (not clauses of C17) ..... `begin_block_never_panics`, `end_block_never_panics_with_clean_buckets`
 * observations outside C17's clauses .. `…_observation` (see observations/C17.md)
+* genesis export/import of this store . `PvProofs.C18Trigger` (cited by C18)
 -/
-import PvProofs.Lemmas.TrigGas
+import PvProofs.Lemmas.TrigFit
 
 namespace PvProofs.C17
 open PvModel.Trig PvProofs.Lemmas.Trig
@@ -285,6 +294,72 @@ theorem exceeding_prepaid_gas_fails_as_a_whole (s : State) (acts : List Action) 
   · have := hg a; omega
   · exact ⟨a, b⟩
 
+/-- END TO END, over every history and every gas-consumption oracle: whatever a BeginBlock runs, it
+runs within the gas the trigger's CREATOR prepaid.  For every executed trigger `x` there is an
+operation of the history — its position `i` is the same in the history and in its log — that is a
+`MsgCreateTriggerRequest` transaction which passed `ValidateBasic`, was answered `created x.id x.gas`
+(so: this trigger, this limit), whose action list is the one now run and whose every action signer
+signed it; the limit `x.gas` the trigger is run with is `gasLimitFor` of that transaction's remaining
+gas `rem` (no operation in between changed it: `gasLimits_step`), it was charged to that transaction
+on top of the cost of storing it, and what the trigger's completed actions consume now, plus that
+storing cost, is within what the creating transaction had left. -/
+theorem executed_within_creators_prepaid_gas (ops : List Op) (cost : Nat → Nat → Nat) (s' : State)
+    (xs : List Exec) (h : processTriggers (run State.init ops).1 cost = some (s', xs)) :
+    ∀ x ∈ xs, ∃ (i : Nat) (m : CreateMsg) (rem hh tm : Nat),
+      ops[i]? = some (.create m rem hh tm) ∧
+      (run State.init ops).2[i]? = some (.created x.id x.gas) ∧
+      x.gas = gasLimitFor rem ∧ x.gas + SetGasLimitCost ≤ rem ∧
+      m.validateBasic = .ok () ∧ x.actions = m.actions ∧ signersCovered m = true ∧
+      completedCost (cost x.id) x.outcomes 0 + SetGasLimitCost ≤ rem := by
+  have hi := HInv_reach ops
+  obtain ⟨s2, xs2, hp, _, _, hids, hacts, _, _, _, _, _, hgl, _⟩ :=
+    processLoop_spec cost MaximumActions 0 _ hi.wf
+  have hcons := processLoop_gas cost MaximumActions 0 _ s' xs h
+  unfold processTriggers at h
+  rw [hp] at h; cases h
+  intro x hx
+  obtain ⟨q, hq, e1, e2⟩ := map_pair_mem (fun x : Exec => x.id) (fun q : QItem => q.trigger.id)
+    (fun x : Exec => x.actions) (fun q : QItem => q.trigger.actions) xs _ hids hacts x hx
+  have hq' : q ∈ qList (run State.init ops).1 := List.mem_of_mem_take hq
+  have hg : (run State.init ops).1.gasLimits q.trigger.id = some x.gas := by
+    have := hgl x hx; rwa [show x.id = q.trigger.id from e1] at this
+  rcases born_run ops State.init WF_init q.trigger x.gas (Or.inr ⟨q, hq', rfl⟩) hg with
+    ⟨_, b⟩ | ⟨i, m, rem, hh, tm, b1, b2, b3, b4, b5, b6⟩
+  · simp [State.init] at b
+  · refine ⟨i, m, rem, hh, tm, b1, by rw [show x.id = q.trigger.id from e1]; exact b2, b3, b4, b5,
+      by rw [show x.actions = q.trigger.actions from e2]; exact b6, ?_, ?_⟩
+    · obtain ⟨_, _, _, hsig⟩ := validateBasic_ok b5
+      simp only [signersCovered, List.all_eq_true]
+      intro a ha sg hsg
+      have := hsig a ha
+      simp only [hasSigners, List.all_eq_true] at this
+      exact this sg hsg
+    · have := (hcons x hx).1; omega
+
+/-- The same in the audit's wording: a create transaction of the history, a `created x.id x.gas`
+entry of its log, the limit is `gasLimitFor` of that transaction's remaining gas and was prepaid. -/
+theorem executed_gas_was_prepaid_by_a_create_of_the_history (ops : List Op) (cost : Nat → Nat → Nat)
+    (s' : State) (xs : List Exec) (h : processTriggers (run State.init ops).1 cost = some (s', xs)) :
+    ∀ x ∈ xs, ∃ m rem hh tm, Op.create m rem hh tm ∈ ops ∧
+      Out.created x.id x.gas ∈ (run State.init ops).2 ∧
+      x.gas = gasLimitFor rem ∧ x.gas + SetGasLimitCost ≤ rem := by
+  intro x hx
+  obtain ⟨i, m, rem, hh, tm, b1, b2, b3, b4, _⟩ :=
+    executed_within_creators_prepaid_gas ops cost s' xs h x hx
+  exact ⟨m, rem, hh, tm, List.mem_of_getElem? b1, List.mem_of_getElem? b2, b3, b4⟩
+
+/-- No operation changes a stored gas limit: after any history, a gas limit present after one more
+operation was there before with the same value, or that operation is the create transaction that
+returned this id and this limit. -/
+theorem gas_limit_never_changes_after_creation (ops : List Op) (op : Op) (id g : Nat)
+    (h : (step (run State.init ops).1 op).1.gasLimits id = some g) :
+    (run State.init ops).1.gasLimits id = some g ∨
+      ∃ m rem hh tm, op = .create m rem hh tm ∧ (step (run State.init ops).1 op).2 = .created id g ∧
+        g = gasLimitFor rem ∧ g + SetGasLimitCost ≤ rem := by
+  rcases gasLimits_step (HInv_reach ops).wf op id g h with h | ⟨m, rem, hh, tm, a, b, _, c, d⟩
+  · exact Or.inl h
+  · exact Or.inr ⟨m, rem, hh, tm, a, b, c, d⟩
+
 /-- non-vacuity: two sends of 7 000 gas each on 10 000 prepaid gas — each fits alone, together they
 do not; the second is cut off, nothing moves -/
 example : let s := (run State.init [.fund "A" 10]).1
@@ -392,6 +467,33 @@ theorem place_only_moves_forward (ops : List Op) (op : Op) (id : Nat) :
     (place (run State.init ops).1 id).rank ≤ (place (step (run State.init ops).1 op).1 id).rank :=
   place_rank_le (HInv_reach ops).wf (Mono_step (HInv_reach ops).wf op) id
 
+/-- Every operation moves every trigger id only along the life cycle, one legal step at a time: it
+stays where it is, or goes unborn → waiting (a create), waiting → queued (a detection), waiting →
+gone (a destruction) or queued → gone (an execution).  In particular an id never appears in the
+queue, and is never gone, without having been waiting first (no unborn → queued, no unborn →
+gone), and nothing moves backwards. -/
+theorem place_moves_only_along_the_life_cycle (ops : List Op) (op : Op) (id : Nat) :
+    place (step (run State.init ops).1 op).1 id = place (run State.init ops).1 id ∨
+    (place (run State.init ops).1 id = .unborn ∧ place (step (run State.init ops).1 op).1 id = .waiting) ∨
+    (place (run State.init ops).1 id = .waiting ∧ place (step (run State.init ops).1 op).1 id = .queued) ∨
+    (place (run State.init ops).1 id = .waiting ∧ place (step (run State.init ops).1 op).1 id = .gone) ∨
+    (place (run State.init ops).1 id = .queued ∧ place (step (run State.init ops).1 op).1 id = .gone) := by
+  have hr := place_only_moves_forward ops op id
+  cases hp : place (run State.init ops).1 id with
+  | unborn =>
+    rcases place_unborn_step (HInv_reach ops).wf op id hp with e | e
+    · exact Or.inl e
+    · exact Or.inr (Or.inl ⟨rfl, e⟩)
+  | waiting =>
+    rw [hp] at hr; revert hr
+    cases place (step (run State.init ops).1 op).1 id <;> simp [Place.rank]
+  | queued =>
+    rw [hp] at hr; revert hr
+    cases place (step (run State.init ops).1 op).1 id <;> simp [Place.rank]
+  | gone =>
+    rw [hp] at hr; revert hr
+    cases place (step (run State.init ops).1 op).1 id <;> simp [Place.rank]
+
 theorem place_rank_run : ∀ (ops : List Op) (s : State), WF s → ∀ id,
     (place s id).rank ≤ (place (run s ops).1 id).rank
   | [], s, _, id => by simp [run]
@@ -435,6 +537,76 @@ theorem destroy_iff_owner_and_waiting (s : State) (auth : Addr) (id : Nat) :
   · rintro ⟨h1, h2, t, h3, h4⟩
     refine ⟨removeGasLimit (unregisterTrigger s t) t.id, ?_⟩
     simp [destroyTrigger, destroyTriggerHandler, getTrigger, h1, h2, h3, h4]
+
+/-- For every store, the exact effect of a destroy message: it succeeds iff the trigger is registered
+and the signer is its owner, and then the new store is the old one with exactly three changes — the
+trigger record, its event-listener key and its gas limit are removed; the id counter, the queue
+(items, start, length), every other trigger / listener key / gas limit and all balances are
+untouched. -/
+theorem destroy_post_state (s s' : State) (auth : Addr) (id : Nat) :
+    destroyTrigger s auth id = .ok s' ↔
+      (validAddr auth = true ∧ id ≠ 0 ∧ ∃ t, s.triggers id = some t ∧ t.owner = auth ∧
+        s' = { s with triggers := fun i => if i = t.id then none else s.triggers i,
+                      listeners := s.listeners.filter fun l => l != listenerOf t,
+                      gasLimits := fun i => if i = t.id then none else s.gasLimits i }) := by
+  constructor
+  · intro h
+    obtain ⟨h1, h2, t, h3, h4, h5⟩ := destroyTrigger_ok h
+    exact ⟨h1, h2, t, h3, h4, h5⟩
+  · rintro ⟨h1, h2, t, h3, h4, h5⟩
+    subst h5
+    simp [destroyTrigger, destroyTriggerHandler, getTrigger, h1, h2, h3, h4, removeGasLimit,
+      unregisterTrigger, removeEventListener, removeTrigger]
+
+/-- After any history, a successful destroy moves exactly this id from waiting to gone: its record,
+its listener key and its gas limit are removed; every other id keeps its record, its gas limit, its
+listener key and its place; the id counter, the queue and the balances are unchanged. -/
+theorem destroy_moves_waiting_to_gone (ops : List Op) (auth : Addr) (id : Nat) (s' : State)
+    (h : destroyTrigger (run State.init ops).1 auth id = .ok s') :
+    place (run State.init ops).1 id = .waiting ∧ place s' id = .gone ∧
+    s'.triggers id = none ∧ s'.gasLimits id = none ∧ (∀ l ∈ s'.listeners, l.id ≠ id) ∧
+    (∀ j, j ≠ id → s'.triggers j = (run State.init ops).1.triggers j ∧
+      s'.gasLimits j = (run State.init ops).1.gasLimits j ∧
+      place s' j = place (run State.init ops).1 j) ∧
+    (∀ l : Listener, l.id ≠ id → (l ∈ s'.listeners ↔ l ∈ (run State.init ops).1.listeners)) ∧
+    s'.nextId = (run State.init ops).1.nextId ∧ s'.qItems = (run State.init ops).1.qItems ∧
+    s'.qStart = (run State.init ops).1.qStart ∧ s'.qLen = (run State.init ops).1.qLen ∧
+    s'.bal = (run State.init ops).1.bal := by
+  have hw := (HInv_reach ops).wf
+  generalize (run State.init ops).1 = s at h hw
+  obtain ⟨_, _, t, ht, _, hs⟩ := destroyTrigger_ok h
+  obtain ⟨hid, h1, hlt⟩ := hw.trig id t ht
+  obtain ⟨hw', hf⟩ := WF_destroyTrigger hw h
+  subst hs
+  have hq : qIds (removeGasLimit (unregisterTrigger s t) t.id) = qIds s := hf.qIds
+  have hnq : id ∉ qIds s := by
+    intro hm
+    obtain ⟨x, hx, e⟩ := List.mem_map.1 hm
+    have := (hw.q x hx).1
+    rw [e, ht] at this; cases this
+  have htr : ∀ j, (removeGasLimit (unregisterTrigger s t) t.id).triggers j =
+      if j = id then none else s.triggers j := fun j => by rw [← hid]; rfl
+  have hgl : ∀ j, (removeGasLimit (unregisterTrigger s t) t.id).gasLimits j =
+      if j = id then none else s.gasLimits j := fun j => by rw [← hid]; rfl
+  refine ⟨by simp [place, registered, ht], ?_, by simp [htr], by simp [hgl], ?_, ?_, ?_,
+    rfl, rfl, rfl, rfl, rfl⟩
+  · unfold place registered queued
+    rw [htr, hq]
+    simp only [if_true, Option.isSome_none, Bool.false_eq_true, if_false]
+    rw [if_neg (by simpa using hnq), if_pos ⟨h1, hlt⟩]
+  · intro l hl e
+    obtain ⟨t', ht', _⟩ := (hw'.lis l).1 hl
+    rw [htr, if_pos e] at ht'; cases ht'
+  · intro j hj
+    refine ⟨by simp [htr, hj], by simp [hgl, hj], ?_⟩
+    unfold place registered queued
+    rw [htr, hq, if_neg hj]
+    rfl
+  · intro l hl
+    show l ∈ s.listeners.filter (fun l => l != listenerOf t) ↔ _
+    simp only [List.mem_filter, bne_iff_ne, ne_eq, and_iff_left_iff_imp]
+    intro _ e
+    apply hl; rw [e, ← hid]; rfl
 
 /-- After any history, a destroy of a queued or gone (or never created) id is rejected, whoever
 signs it — including the owner. -/
@@ -502,6 +674,99 @@ theorem head_always_fits (ops : List Op) (cost : Nat → Nat → Nat)
       simp
     rw [this]; rfl
 
+/-- After any history a BeginBlock runs EXACTLY as many triggers as fit the per-block caps — the
+number `fitCount` computes from the queue and the stored gas limits (the function behind the
+checker's `fail:stopped_early` / `fail:cap_count` / `fail:cap_gas`): never fewer, never more. -/
+theorem runs_exactly_the_triggers_that_fit (ops : List Op) (cost : Nat → Nat → Nat) (s' : State)
+    (xs : List Exec) (h : processTriggers (run State.init ops).1 cost = some (s', xs)) :
+    xs.length = fitCount (run State.init ops).1 (qIds (run State.init ops).1) MaximumActions 0 :=
+  processLoop_fit cost MaximumActions 0 _ (HInv_reach ops).wf s' xs h
+
+/-- The same without `fitCount`'s recursion: after any history a BeginBlock stops only because the
+queue is exhausted, or `MaximumActions` triggers ran, or the next trigger in line (position
+`xs.length` of the queue) has a stored gas limit that no longer fits `MaximumQueueGas` on top of the
+limits of the triggers that ran — no other reason (a failing, panicking or gas-exhausting trigger
+does not end the block's dispatch). -/
+theorem stops_only_at_a_cap (ops : List Op) (cost : Nat → Nat → Nat) (s' : State)
+    (xs : List Exec) (h : processTriggers (run State.init ops).1 cost = some (s', xs)) :
+    xs.length = (qIds (run State.init ops).1).length ∨ xs.length = MaximumActions ∨
+    ∃ id g, (qIds (run State.init ops).1)[xs.length]? = some id ∧
+      (run State.init ops).1.gasLimits id = some g ∧ (xs.map (·.gas)).sum + g > MaximumQueueGas := by
+  have hw := (HInv_reach ops).wf
+  have hfit := runs_exactly_the_triggers_that_fit ops cost s' xs h
+  obtain ⟨s2, xs2, hp, _, _, hids, _, _, _, _, _, _, hgl, _⟩ := processLoop_spec cost MaximumActions 0 _ hw
+  unfold processTriggers at h
+  rw [hp] at h; cases h
+  rcases fitCount_stop (run State.init ops).1 (qIds (run State.init ops).1) MaximumActions 0 with
+    e | e | ⟨id, e1, e2⟩
+  · exact Or.inl (hfit.trans e)
+  · exact Or.inr (Or.inl (hfit.trans e))
+  · right; right
+    rw [← hfit] at e1 e2
+    have hmem : id ∈ qIds (run State.init ops).1 := List.mem_of_getElem? e1
+    obtain ⟨g, hg⟩ := Option.isSome_iff_exists.1 ((hw.gas id).2 (Or.inr hmem))
+    refine ⟨id, g, e1, hg, ?_⟩
+    have htake : (qIds (run State.init ops).1).take xs.length = xs.map (·.id) := by
+      rw [hids]; unfold qIds; rw [List.map_take]
+    have hsum : ((xs.map (·.id)).map fun i => ((run State.init ops).1.gasLimits i).getD 0) =
+        xs.map (·.gas) := by
+      rw [List.map_map]
+      exact List.map_congr_left (fun x hx => by simp [hgl x hx])
+    rw [htake, hsum, hg] at e2
+    simp only [Option.getD_some] at e2
+    omega
+
+/-! ### the documented cap is on ACTIONS; the code counts TRIGGERS
+
+06_begin_and_end_blocker.md: "a throttling limit within the module's BeginBlocker, effectively
+enforcing a maximum of 5 actions and a gas limit of 2,000,000 per BeginBlock"; the property says
+"the per-block action and gas caps".  Full statement (`actionsRun xs` = action handlers started):
+
+    processTriggers s cost = some (s', xs) → actionsRun xs ≤ MaximumActions
+
+It is FALSE for the code: `ProcessTriggers` increments `actionsProcessed` once per TRIGGER
+(trigger_dispatcher.go:24,36) and a trigger may carry any number of actions
+(`MsgCreateTriggerRequest.ValidateBasic` only demands at least one), so one BeginBlock runs up to
+5 triggers with all their actions; only the 2 000 000 gas cap bounds the number of actions.  The
+negation is proved on a concrete history (replayed on the real module: corpus/C17, history
+"per-block cap counts triggers, not actions"); what does hold is `per_block_action_cap_partial`. -/
+
+/-- five triggers for height 11, two sends each -/
+def tenActions : List Op :=
+  [ .fund "A" 100,
+    .create ⟨["A"], .height 11, [.send "A" "B" 1, .send "A" "C" 1]⟩ 102510 10 1000,
+    .create ⟨["A"], .height 11, [.send "A" "B" 1, .send "A" "C" 1]⟩ 102510 10 1000,
+    .create ⟨["A"], .height 11, [.send "A" "B" 1, .send "A" "C" 1]⟩ 102510 10 1000,
+    .create ⟨["A"], .height 11, [.send "A" "B" 1, .send "A" "C" 1]⟩ 102510 10 1000,
+    .create ⟨["A"], .height 11, [.send "A" "B" 1, .send "A" "C" 1]⟩ 102510 10 1000,
+    .endBlock [] 11 1006 ]
+
+/-- NEGATION of the documented action cap, on a witness: the BeginBlock after `tenActions` runs five
+triggers, all successfully, ten actions in all — twice `MaximumActions`. -/
+theorem per_block_action_cap_is_not_enforced_observation :
+    (processTriggers (run State.init tenActions).1 (fun _ _ => 5000)).map
+        (fun r => (r.2.map (·.success), actionsRun r.2, r.1.bal "B", r.1.bal "C")) =
+      some ([true, true, true, true, true], 10, 5, 5) ∧
+    ¬ (10 ≤ MaximumActions) := by
+  decide
+
+/-- PARTIAL (the full statement above is false for the code): per BeginBlock, for every store, at
+most `MaximumActions` TRIGGERS run; each starts at most the action handlers of its own action list,
+so the actions run are bounded by the action-list lengths of those at most five triggers — and by
+`MaximumActions` itself when every trigger has a single action.  Missing for the documented cap:
+a bound on the number of actions independent of the triggers' action-list lengths. -/
+theorem per_block_action_cap_partial (s s' : State) (cost : Nat → Nat → Nat) (xs : List Exec)
+    (h : processTriggers s cost = some (s', xs)) :
+    xs.length ≤ MaximumActions ∧ (∀ x ∈ xs, x.outcomes.length ≤ x.actions.length) ∧
+    actionsRun xs ≤ (xs.map (·.actions.length)).sum ∧
+    ((∀ x ∈ xs, x.actions.length ≤ 1) → actionsRun xs ≤ MaximumActions) := by
+  have hlen := (per_block_caps s s' cost xs h).1
+  have hout := processLoop_outcomes_le cost MaximumActions 0 s s' xs h
+  refine ⟨hlen, hout, sum_map_le_sum_map _ _ xs hout, fun h1 => ?_⟩
+  have := sum_map_le_length (fun x : Exec => x.outcomes.length) xs
+    (fun x hx => Nat.le_trans (hout x hx) (h1 x hx))
+  exact Nat.le_trans this hlen
+
 /-- A trigger queued at position `p` (0 = head) has been executed once `p + 1` further BeginBlocks
 have happened, whatever transactions, detections and gas exhaustion occur in between. -/
 theorem queued_trigger_runs_within_its_position (ops more : List Op) (pre post : List Nat) (id : Nat)
@@ -528,8 +793,9 @@ theorem end_block_never_panics_with_clean_buckets (ops : List Op) (evs : List Ab
 
 /-! ## observations — outside C17's clauses; see observations/
 
-Three defects of the code that the model mirrors faithfully.  None breaks a clause of C17 (all of
-which are safety statements and still hold); they are recorded in `observations/C17.md`. -/
+Defects of the code that the model mirrors faithfully (a fourth, the action cap, is with the cap
+theorems above).  None of the three below breaks a clause of C17 (all of which are safety statements
+and still hold); they are recorded in `observations/C17.md`. -/
 
 /-- OBSERVATION, outside C17's clauses; see observations/ (x/trigger/keeper/event_detector.go:53-56, x/trigger/types/trigger.go:86): a
 `TransactionEvent` may be named like the block-height bucket.  The create transaction is accepted,
@@ -609,6 +875,29 @@ example : (run State.init (demo ++ [.beginBlock (fun id _ => if id = 2 then 7630
 
 example : let s := (run State.init (demo ++ [.beginBlock (fun id _ => if id = 2 then 7630 else 5000), .beginBlock (fun _ _ => 5000)])).1
     (s.bal "A", s.bal "B", s.bal "C") = (6, 0, 4) := by
+  decide
+
+/-- non-vacuity of the hypothesis `processTriggers … = some (s', xs)` of the BeginBlock theorems
+(`executed_within_creators_prepaid_gas`, `runs_exactly_the_triggers_that_fit`, `stops_only_at_a_cap`, …):
+after `demo` it holds with two executed triggers — exactly `fitCount`: the third one's 2 000 000 gas
+does not fit on top of 497 490 + 490 — created by operations 1 and 2 of the history with remaining
+gas 500 000 and 3 000. -/
+example : ∃ s' x xs, processTriggers (run State.init demo).1 (fun _ _ => 5000) = some (s', x :: xs) := by
+  obtain ⟨s', x, xs, h, _⟩ := head_always_fits demo (fun _ _ => 5000) (by decide)
+  exact ⟨s', x, xs, h⟩
+example : fitCount (run State.init demo).1 (qIds (run State.init demo).1) MaximumActions 0 = 2 ∧
+    (qIds (run State.init demo).1)[2]? = some 3 ∧ (run State.init demo).1.gasLimits 3 = some 2000000 ∧
+    demo[1]? = some (.create ⟨["A"], .height 11, [.send "A" "B" 3, .send "A" "B" 100]⟩ 500000 10 1000) ∧
+    (run State.init demo).2[1]? = some (.created 1 497490) ∧ 497490 = gasLimitFor 500000 :=
+  ⟨by decide, by decide, by decide, rfl, by decide, by decide⟩
+
+/-- a trigger id visits the places in order: 4 is unborn, waiting after its create, gone after its
+owner's destroy; 1 goes from waiting to queued at the EndBlock and is gone after the BeginBlock -/
+example : place (run State.init demo).1 4 = .unborn ∧
+    place (run State.init (demo ++ [.create ⟨["A"], .height 20, [.boom]⟩ 5000 12 1010])).1 4 = .waiting ∧
+    place (run State.init (demo ++ [.create ⟨["A"], .height 20, [.boom]⟩ 5000 12 1010, .destroy "A" 4])).1 4 = .gone ∧
+    place (run State.init (demo.take 4)).1 1 = .waiting ∧ place (run State.init demo).1 1 = .queued ∧
+    place (run State.init (demo ++ [.beginBlock (fun _ _ => 5000)])).1 1 = .gone := by
   decide
 
 /-- times are full timestamps (nanoseconds): a trigger for T+0.9 s created in the block at T+0.2 s
